@@ -703,4 +703,42 @@ theorem poweroff_effect {w : World} {i sp : Nat} {d : List Nat} {trx : Trx}
 example : CtrlReq (encodeUtf8 (lit "CMD POWEROFF\x00")) [lit "POWEROFF"] :=
   ⟨lit "CMD POWEROFF\x00", by decide +kernel, by decide +kernel, by decide +kernel⟩
 
+/-! ### requests: SETFORMAT -/
+
+theorem ctrlCmdHandler_setformat (a : Str) : ctrlCmdHandler [lit "SETFORMAT", a] = .ok (none, none) := rfl
+
+theorem commonCmd_setformat (t : Trx) (a : Str) :
+    commonCmd t [lit "SETFORMAT", a] =
+      (match toInt a with
+       | .error e => .error e
+       | .ok verReq =>
+         if verReq < 0 ∨ verReq > Gen.Trxd.chdrVersionMax then .ok (.reply (-1) [])
+         else if ¬ Gen.Trxd.knownVersions.contains verReq then .ok (.reply (pickHdrVer verReq) [])
+         else .ok (.patch (.hdrVer verReq) verReq)) := by
+  unfold commonCmd
+  have e1 : verifyCmd [lit "SETFORMAT", a] "POWERON" 0 = false := rfl
+  have e2 : verifyCmd [lit "SETFORMAT", a] "POWEROFF" 0 = false := rfl
+  have e3 : verifyCmd [lit "SETFORMAT", a] "RXTUNE" 1 = false := rfl
+  have e4 : verifyCmd [lit "SETFORMAT", a] "TXTUNE" 1 = false := rfl
+  have e5 : verifyCmd [lit "SETFORMAT", a] "MEASURE" 1 = false := rfl
+  have e6 : verifyCmd [lit "SETFORMAT", a] "SETFH" 4 true = false := rfl
+  have e7 : verifyCmd [lit "SETFORMAT", a] "SETFORMAT" 1 = true := rfl
+  simp only [e1, e2, e3, e4, e5, e6, e7, Bool.false_eq_true, if_false, if_true]
+  simp only [arg, List.getElem?_cons_succ, List.getElem?_cons_zero, bind, Except.bind, pure, Except.pure]
+  cases toInt a with
+  | error e => rfl
+  | ok v => rfl
+
+/-- an accepted `SETFORMAT v` (v a known version) sets the header version of `i` and nothing else -/
+theorem setformat_effect {w : World} {i sp : Nat} {d : List Nat} {trx : Trx} {a : Str} {v : Int}
+    (ht : w.trxs[i]? = some trx) (hreq : CtrlReq d [lit "SETFORMAT", a]) (ha : toInt a = .ok v)
+    (hk : v ∈ Gen.Trxd.knownVersions) :
+    (step w (.ctrl i sp d)).world = setTrx w i (fun t => { t with hdrVer := v }) := by
+  rw [step_ctrl_of_req ht hreq]
+  unfold parseCmd
+  rw [ctrlCmdHandler_setformat]
+  simp only [bind, Except.bind, ht, commonCmd_setformat, ha]
+  have hv : v = 0 ∨ v = 1 := by simpa [Gen.Trxd.knownVersions] using hk
+  rcases hv with rfl | rfl <;> rfl
+
 end OsmoVerif.World
